@@ -219,23 +219,53 @@ Proof. decide equality. apply N.eq_dec. Qed.
 Lemma uses_fun r n t t' : uses r n t -> uses r n t' -> t = t'.
 Proof. intros [c H] [c' H']. congruence. Qed.
 
-(* ---------- the invariant of one registry on its library ---------- *)
+Lemma slookup_sdel_some {V} x k (l : list (str * V)) v : slookup x (sdel k l) = Some v -> x <> k /\ slookup x l = Some v.
+Proof.
+  intro H. destruct (str_eq_dec x k) as [E|E].
+  - subst. rewrite slookup_sdel_same in H. discriminate.
+  - rewrite slookup_sdel_other in H by assumption. auto.
+Qed.
+
+Lemma tag_used_uses r t : tag_used r t = true <-> exists n, uses r n t.
+Proof.
+  unfold tag_used, uses. rewrite existsb_exists. split.
+  - intros (n & _ & H). destruct (slookup n (reg r)) as [[c t']|] eqn:E; [|discriminate].
+    apply str_eqb_eq in H. subst. eauto.
+  - intros (n & c & H). exists n. split; [eapply slookup_in_keys; eassumption|]. rewrite H. apply str_eqb_refl.
+Qed.
+
+Lemma protect_ok_spec r ps : protect_ok r (OProtect ps) = true <-> forall t, In t ps -> forall n, ~ uses r n t.
+Proof.
+  unfold protect_ok. rewrite negb_true_iff. split.
+  - intros H t Ht n Hn. assert (X : existsb (tag_used r) ps = true).
+    { apply existsb_exists. exists t. split; [assumption|]. apply tag_used_uses. eauto. }
+    congruence.
+  - intro H. destruct (existsb (tag_used r) ps) eqn:E; [|reflexivity].
+    apply existsb_exists in E. destruct E as (t & Ht & Hu). apply tag_used_uses in Hu. destruct Hu as [n Hn].
+    destruct (H t Ht n Hn).
+Qed.
+
+(* ---------- the invariants of one registry on its library ---------- *)
 Section Inv.
   Context (rid : N) (fmt : str -> option str) (l0 : lib).
 
-  Record inv (r : rstate) (l : lib) : Prop := {
-    inv_nodup : NoDup (skeys (reg r));
-    inv_tags : tags_consistent r;
-    inv_fmt : forall n c t, slookup n (reg r) = Some (c, t) -> fmt n = Some t;
-    inv_prot : prot l = prot l0;
-    inv_used : forall n t, uses r n t -> slookup t (ltags l) = Some (OComp rid) /\ nmem t (prot l0) = false;
-    inv_owned : forall t, slookup t (ltags l) = Some (OComp rid) ->
-                (exists n, uses r n t) \/ slookup t (ltags l0) = Some (OComp rid);
-    inv_other : forall t o, slookup t (ltags l) = Some o -> o <> OComp rid -> slookup t (ltags l0) = Some o;
-    inv_protected : forall t, nmem t (prot l0) = true -> slookup t (ltags l) = slookup t (ltags l0)
+  (* holds after EVERY history (the protected list may change at any time) *)
+  Record ginv (r : rstate) (l : lib) : Prop := {
+    g_nodup : NoDup (skeys (reg r));
+    g_tags : tags_consistent r;
+    g_fmt : forall n c t, slookup n (reg r) = Some (c, t) -> fmt n = Some t;
+    g_used : forall n t, uses r n t -> slookup t (ltags l) = Some (OComp rid);
+    g_other : forall t o, slookup t (ltags l) = Some o -> o <> OComp rid -> slookup t (ltags l0) = Some o
   }.
 
-  Lemma inv_init : inv rempty l0.
+  (* holds in addition after every DISCIPLINED history (no tag is marked protected while a component uses it) *)
+  Record dinv (r : rstate) (l : lib) : Prop := {
+    d_unprot : forall n t, uses r n t -> nmem t (prot l) = false;
+    d_owned : forall t, slookup t (ltags l) = Some (OComp rid) ->
+              (exists n, uses r n t) \/ slookup t (ltags l0) = Some (OComp rid)
+  }.
+
+  Lemma ginv_init : ginv rempty l0.
   Proof.
     constructor; simpl; try (intros; discriminate); auto.
     - constructor.
@@ -243,62 +273,74 @@ Section Inv.
     - intros n t [c H]. discriminate.
   Qed.
 
+  Lemma dinv_init : dinv rempty l0.
+  Proof. constructor; [intros n t [c H]; discriminate | auto]. Qed.
+
   (* --- register --- *)
-  Lemma register_ok_inv n c t r l :
-    inv r l -> fmt n = Some t -> nmem t (prot l) = false ->
-    let ns := match slookup t (tgs r) with Some ns => ns | None => [] end in
-    inv {| reg := sset n (c, t) (reg r); tgs := sset t (nadd n ns) (tgs r) |}
-        {| ltags := sset t (OComp rid) (ltags l); prot := prot l |}.
-  Proof.
-    intros I Hf Hp ns.
-    set (r' := {| reg := sset n (c, t) (reg r); tgs := sset t (nadd n ns) (tgs r) |}).
-    assert (Hold : forall t1, uses r n t1 -> t1 = t).
-    { intros t1 [c1 H1]. apply (inv_fmt _ _ I) in H1. congruence. }
-    assert (Hu : forall x t1, uses r' x t1 <-> (x = n /\ t1 = t) \/ uses r x t1).
-    { intros x t1. unfold uses, r'. simpl. destruct (str_eq_dec x n) as [E|E].
+  Section RegisterOk.
+    Context (n : str) (c : N * N) (t : str) (r : rstate) (l : lib) (I : ginv r l) (Hf : fmt n = Some t).
+    Let ns := match slookup t (tgs r) with Some ns => ns | None => [] end.
+    Let r' := {| reg := sset n (c, t) (reg r); tgs := sset t (nadd n ns) (tgs r) |}.
+    Let l' := {| ltags := sset t (OComp rid) (ltags l); prot := prot l |}.
+
+    Lemma reg_uses : forall x t1, uses r' x t1 <-> (x = n /\ t1 = t) \/ uses r x t1.
+    Proof.
+      assert (Hold : forall t1, uses r n t1 -> t1 = t).
+      { intros t1 [c1 H1]. apply (g_fmt _ _ I) in H1. congruence. }
+      intros x t1. unfold uses, r'. simpl. destruct (str_eq_dec x n) as [E|E].
       - subst x. rewrite slookup_sset_same. split.
         + intros [c1 H1]. left. split; congruence.
         + intros [[_ H1]|H1]; [|apply Hold in H1]; subst t1; eauto.
-      - rewrite slookup_sset_other by assumption. split; [auto | intros [[H1 _]|H1]; [contradiction | assumption]]. }
-    assert (Hns : NoDup ns /\ forall x, In x ns <-> uses r x t).
-    { pose proof (inv_tags _ _ I t) as Ht. unfold ns. destruct (slookup t (tgs r)) as [ns0|].
-      - tauto.
-      - split; [constructor|]. intro x. simpl. split; [tauto | apply Ht]. }
-    destruct Hns as [Hnd Hin].
-    rewrite (inv_prot _ _ I) in Hp.
-    constructor.
-    - simpl. apply skeys_sset_nodup. apply (inv_nodup _ _ I).
-    - intro t1. simpl tgs. destruct (str_eq_dec t1 t) as [E|E].
-      + subst t1. rewrite slookup_sset_same. split; [|split].
-        * intro H. assert (In n (nadd n ns)) by (apply nadd_In; auto). rewrite H in H0. destruct H0.
-        * apply nadd_nodup. assumption.
-        * intro x. rewrite nadd_In, Hu, Hin. tauto.
-      + rewrite slookup_sset_other by assumption.
-        pose proof (inv_tags _ _ I t1) as Ht. destruct (slookup t1 (tgs r)) as [ns1|].
-        * destruct Ht as (H1 & H2 & H3). split; [assumption | split; [assumption|]].
-          intro x. rewrite H3, Hu. tauto.
-        * intros x Hx. apply Hu in Hx. destruct Hx as [[_ Hx]|Hx]; [contradiction | exact (Ht x Hx)].
-    - intros x c1 t1. simpl. destruct (str_eq_dec x n) as [E|E].
-      + subst x. rewrite slookup_sset_same. congruence.
-      + rewrite slookup_sset_other by assumption. apply (inv_fmt _ _ I).
-    - simpl. apply (inv_prot _ _ I).
-    - intros x t1 Hx. apply Hu in Hx. simpl ltags. destruct Hx as [[_ Hx]|Hx].
-      + subst t1. rewrite slookup_sset_same. auto.
-      + destruct (inv_used _ _ I _ _ Hx) as [H1 H2]. split; [|assumption].
-        destruct (str_eq_dec t1 t) as [E|E]; [subst; apply slookup_sset_same|].
-        rewrite slookup_sset_other; assumption.
-    - intros t1. simpl ltags. destruct (str_eq_dec t1 t) as [E|E].
-      + subst t1. intros _. left. exists n. apply Hu. auto.
-      + rewrite slookup_sset_other by assumption. intro H. destruct (inv_owned _ _ I _ H) as [[x Hx]|Hx]; [|auto].
-        left. exists x. apply Hu. auto.
-    - intros t1 o. simpl ltags. destruct (str_eq_dec t1 t) as [E|E].
-      + subst t1. rewrite slookup_sset_same. congruence.
-      + rewrite slookup_sset_other by assumption. apply (inv_other _ _ I).
-    - intros t1 H1. simpl ltags. rewrite slookup_sset_other by congruence. apply (inv_protected _ _ I). assumption.
-  Qed.
+      - rewrite slookup_sset_other by assumption. split; [auto | intros [[H1 _]|H1]; [contradiction | assumption]].
+    Qed.
+
+    Lemma register_ok_ginv : ginv r' l'.
+    Proof.
+      pose proof reg_uses as Hu.
+      assert (Hns : NoDup ns /\ forall x, In x ns <-> uses r x t).
+      { pose proof (g_tags _ _ I t) as Ht. unfold ns. destruct (slookup t (tgs r)) as [ns0|].
+        - tauto.
+        - split; [constructor|]. intro x. simpl. split; [tauto | apply Ht]. }
+      destruct Hns as [Hnd Hin].
+      constructor.
+      - simpl. apply skeys_sset_nodup. apply (g_nodup _ _ I).
+      - intro t1. simpl tgs. destruct (str_eq_dec t1 t) as [E|E].
+        + subst t1. rewrite slookup_sset_same. split; [|split].
+          * intro H. assert (In n (nadd n ns)) by (apply nadd_In; auto). rewrite H in H0. destruct H0.
+          * apply nadd_nodup. assumption.
+          * intro x. rewrite nadd_In, Hu, Hin. tauto.
+        + rewrite slookup_sset_other by assumption.
+          pose proof (g_tags _ _ I t1) as Ht. destruct (slookup t1 (tgs r)) as [ns1|].
+          * destruct Ht as (H1 & H2 & H3). split; [assumption | split; [assumption|]].
+            intro x. rewrite H3, Hu. tauto.
+          * intros x Hx. apply Hu in Hx. destruct Hx as [[_ Hx]|Hx]; [contradiction | exact (Ht x Hx)].
+      - intros x c1 t1. simpl. destruct (str_eq_dec x n) as [E|E].
+        + subst x. rewrite slookup_sset_same. congruence.
+        + rewrite slookup_sset_other by assumption. apply (g_fmt _ _ I).
+      - intros x t1 Hx. apply Hu in Hx. simpl ltags. destruct Hx as [[_ Hx]|Hx].
+        + subst t1. apply slookup_sset_same.
+        + pose proof (g_used _ _ I _ _ Hx) as H1.
+          destruct (str_eq_dec t1 t) as [E|E]; [subst; apply slookup_sset_same|].
+          rewrite slookup_sset_other; assumption.
+      - intros t1 o. simpl ltags. destruct (str_eq_dec t1 t) as [E|E].
+        + subst t1. rewrite slookup_sset_same. congruence.
+        + rewrite slookup_sset_other by assumption. apply (g_other _ _ I).
+    Qed.
+
+    Lemma register_ok_dinv : dinv r l -> nmem t (prot l) = false -> dinv r' l'.
+    Proof.
+      intros D Hp. pose proof reg_uses as Hu. constructor.
+      - intros x t1 Hx. apply Hu in Hx. simpl prot. destruct Hx as [[_ Hx]|Hx]; [subst; assumption|].
+        apply (d_unprot _ _ D _ _ Hx).
+      - intros t1. simpl ltags. destruct (str_eq_dec t1 t) as [E|E].
+        + subst t1. intros _. left. exists n. apply Hu. auto.
+        + rewrite slookup_sset_other by assumption. intro H. destruct (d_owned _ _ D _ H) as [[x Hx]|Hx]; [|auto].
+          left. exists x. apply Hu. auto.
+    Qed.
+  End RegisterOk.
 
   Lemma register_inv n c r l r' l' x :
-    inv r l -> register rid fmt n c r l = (r', l', x) -> inv r' l'.
+    ginv r l -> register rid fmt n c r l = (r', l', x) -> ginv r' l' /\ (dinv r l -> dinv r' l').
   Proof.
     intros I. unfold register.
     assert (G : match fmt n with
@@ -309,31 +351,34 @@ Section Inv.
                       ({| reg := sset n (c, t) (reg r);
                           tgs := sset t (nadd n match slookup t (tgs r) with Some ns => ns | None => [] end) (tgs r) |},
                        {| ltags := sset t (OComp rid) (ltags l); prot := prot l |}, RNone)
-                end = (r', l', x) -> inv r' l').
-    { destruct (fmt n) as [t|] eqn:Hf; [|intro H; inversion H; subst; assumption].
-      destruct (nmem t (prot l)) eqn:Hp; intro H; inversion H; subst; [assumption|].
-      apply register_ok_inv; assumption. }
+                end = (r', l', x) -> ginv r' l' /\ (dinv r l -> dinv r' l')).
+    { destruct (fmt n) as [t|] eqn:Hf; [|intro H; inversion H; subst; auto].
+      destruct (nmem t (prot l)) eqn:Hp; intro H; inversion H; subst; [auto|].
+      split; [apply register_ok_ginv; assumption | intro D; apply register_ok_dinv; assumption]. }
     destruct (slookup n (reg r)) as [[c' t']|]; [|exact G].
-    destruct (same_class c' c); [exact G|]. intro H; inversion H; subst; assumption.
+    destruct (same_class c' c); [exact G|]. intro H; inversion H; subst; auto.
   Qed.
 
   (* --- unregister --- *)
   Lemma unregister_spec n c t r l :
-    inv r l -> slookup n (reg r) = Some (c, t) ->
-    exists r' l', unregister n r l = (r', l', RNone) /\ reg r' = sdel n (reg r) /\ inv r' l'.
+    ginv r l -> slookup n (reg r) = Some (c, t) ->
+    exists r' l', unregister n r l = (r', l', RNone) /\ reg r' = sdel n (reg r) /\ prot l' = prot l /\
+                  ginv r' l' /\ (dinv r l -> dinv r' l').
   Proof.
     intros I Hn. unfold unregister. rewrite Hn.
     assert (Hun : uses r n t) by (exists c; assumption).
-    pose proof (inv_tags _ _ I t) as Ht.
+    pose proof (g_tags _ _ I t) as Ht.
     destruct (slookup t (tgs r)) as [ns|] eqn:Hns; [|exfalso; exact (Ht n Hun)].
     destruct Ht as (Hne & Hnd & Hin).
     assert (Hmem : nmem n ns = true) by (apply nmem_In, Hin; assumption).
     rewrite Hmem. simpl negb. cbv iota.
-    destruct (inv_used _ _ I _ _ Hun) as [Hl Hp].
-    rewrite (inv_prot _ _ I), Hp. unfold smem. rewrite Hl. simpl negb. rewrite !andb_true_l, andb_true_r.
+    pose proof (g_used _ _ I _ _ Hun) as Hl.
+    unfold smem. rewrite Hl. rewrite andb_true_r.
     set (ns' := nremove n ns).
-    set (r' := {| reg := sdel n (reg r);
-                  tgs := if match ns' with [] => true | _ :: _ => false end then sdel t (tgs r) else sset t ns' (tgs r) |}).
+    set (emp := match ns' with [] => true | _ :: _ => false end).
+    set (r' := {| reg := sdel n (reg r); tgs := if emp then sdel t (tgs r) else sset t ns' (tgs r) |}).
+    set (del := negb (nmem t (prot l)) && emp).
+    set (l' := if del then {| ltags := sdel t (ltags l); prot := prot l |} else l).
     assert (Hu : forall x t1, uses r' x t1 <-> x <> n /\ uses r x t1).
     { intros x t1. unfold uses, r'. simpl. destruct (str_eq_dec x n) as [E|E].
       - subst x. rewrite slookup_sdel_same. split; [intros [c1 H1]; discriminate | tauto].
@@ -343,126 +388,136 @@ Section Inv.
       intro. subst x. apply E. eapply uses_fun; eassumption. }
     assert (Hin' : forall x, In x ns' <-> uses r' x t).
     { intro x. unfold ns'. rewrite nremove_In, Hu, Hin. tauto. }
-    eexists r', _. split; [reflexivity|]. split; [reflexivity|].
+    assert (Hemp : emp = true -> forall x t1, uses r' x t1 -> t1 <> t).
+    { unfold emp. intros He x t1 Hx E. subst t1. apply Hin' in Hx. destruct ns'; [destruct Hx | discriminate]. }
+    assert (Hprot : prot l' = prot l) by (unfold l'; destruct del; reflexivity).
+    exists r', l'. split; [reflexivity|]. split; [reflexivity|]. split; [exact Hprot|].
     assert (Htags : tags_consistent r').
     { intro t1. destruct (str_eq_dec t1 t) as [E|E].
-      - subst t1. unfold r' at 1. simpl tgs. destruct ns' as [|y ns''] eqn:En.
+      - subst t1. unfold r' at 1, emp. simpl tgs. destruct ns' as [|y ns''] eqn:En.
         + rewrite slookup_sdel_same. intros x Hx. apply Hin' in Hx. destruct Hx.
         + rewrite slookup_sset_same. split; [discriminate|]. split; [|exact Hin'].
           rewrite <- En. apply nremove_nodup. assumption.
       - assert (Hl1 : slookup t1 (tgs r') = slookup t1 (tgs r)).
-        { unfold r'. simpl. destruct ns'; [apply slookup_sdel_other | apply slookup_sset_other]; assumption. }
-        rewrite Hl1. pose proof (inv_tags _ _ I t1) as Ht1. destruct (slookup t1 (tgs r)) as [ns1|].
+        { unfold r'. simpl. destruct emp; [apply slookup_sdel_other | apply slookup_sset_other]; assumption. }
+        rewrite Hl1. pose proof (g_tags _ _ I t1) as Ht1. destruct (slookup t1 (tgs r)) as [ns1|].
         + destruct Ht1 as (H1 & H2 & H3). split; [assumption | split; [assumption|]].
           intro x. rewrite H3. symmetry. apply Hu'. assumption.
         + intros x Hx. apply Hu' in Hx; [|assumption]. exact (Ht1 x Hx). }
-    destruct ns' as [|y ns''] eqn:En.
-    - (* last user of the tag: the tag leaves the library *)
-      assert (Hnot : forall x t1, uses r' x t1 -> t1 <> t).
-      { intros x t1 Hx E. subst t1. apply Hin' in Hx. destruct Hx. }
-      constructor.
-      + simpl. apply skeys_sdel_nodup, (inv_nodup _ _ I).
+    split.
+    - constructor.
+      + simpl. apply skeys_sdel_nodup, (g_nodup _ _ I).
       + exact Htags.
       + intros x c1 t1 H1. assert (Hx : uses r' x t1) by (exists c1; assumption).
-        apply Hu in Hx. destruct Hx as [_ [c2 Hx]]. eapply (inv_fmt _ _ I); eassumption.
-      + simpl. reflexivity.
-      + intros x t1 Hx. pose proof (Hnot _ _ Hx) as E. apply Hu in Hx. destruct Hx as [_ Hx].
-        simpl ltags. rewrite slookup_sdel_other by assumption. apply (inv_used _ _ I _ _ Hx).
-      + intros t1. simpl ltags. destruct (str_eq_dec t1 t) as [E|E]; [subst; rewrite slookup_sdel_same; discriminate|].
-        rewrite slookup_sdel_other by assumption. intro H. destruct (inv_owned _ _ I _ H) as [[x Hx]|Hx]; [|auto].
-        left. exists x. apply Hu'; assumption.
-      + intros t1 o. simpl ltags. destruct (str_eq_dec t1 t) as [E|E]; [subst; rewrite slookup_sdel_same; discriminate|].
-        rewrite slookup_sdel_other by assumption. apply (inv_other _ _ I).
-      + intros t1 H1. simpl ltags. rewrite slookup_sdel_other by congruence. apply (inv_protected _ _ I). assumption.
-    - (* other components still use the tag: the library is not touched *)
-      constructor.
-      + simpl. apply skeys_sdel_nodup, (inv_nodup _ _ I).
-      + exact Htags.
-      + intros x c1 t1 H1. assert (Hx : uses r' x t1) by (exists c1; assumption).
-        apply Hu in Hx. destruct Hx as [_ [c2 Hx]]. eapply (inv_fmt _ _ I); eassumption.
-      + apply (inv_prot _ _ I).
-      + intros x t1 Hx. apply Hu in Hx. destruct Hx as [_ Hx]. apply (inv_used _ _ I _ _ Hx).
-      + intros t1 H. destruct (inv_owned _ _ I _ H) as [[x Hx]|Hx]; [|auto]. left.
+        apply Hu in Hx. destruct Hx as [_ [c2 Hx]]. eapply (g_fmt _ _ I); eassumption.
+      + intros x t1 Hx. pose proof (proj2 (proj1 (Hu _ _) Hx)) as Hx0. pose proof (g_used _ _ I _ _ Hx0) as H1.
+        unfold l'. destruct del eqn:Ed; [|assumption].
+        apply andb_true_iff in Ed. destruct Ed as [_ Ee].
+        simpl ltags. rewrite slookup_sdel_other; [assumption | exact (Hemp Ee _ _ Hx)].
+      + intros t1 o. unfold l'. destruct del; [|apply (g_other _ _ I)].
+        simpl ltags. destruct (str_eq_dec t1 t) as [E|E]; [subst; rewrite slookup_sdel_same; discriminate|].
+        rewrite slookup_sdel_other by assumption. apply (g_other _ _ I).
+    - intro D. pose proof (d_unprot _ _ D _ _ Hun) as Hp. constructor.
+      + intros x t1 Hx. rewrite Hprot. apply Hu in Hx. destruct Hx as [_ Hx]. apply (d_unprot _ _ D _ _ Hx).
+      + intros t1 H. unfold l', del in H. rewrite Hp in H. simpl negb in H. rewrite andb_true_l in H.
         destruct (str_eq_dec t1 t) as [E|E].
-        * subst t1. exists y. apply Hin'. left. reflexivity.
-        * exists x. apply Hu'; assumption.
-      + apply (inv_other _ _ I).
-      + apply (inv_protected _ _ I).
+        * subst t1. unfold emp in H. destruct ns' as [|y ns''] eqn:En.
+          -- simpl ltags in H. rewrite slookup_sdel_same in H. discriminate.
+          -- left. exists y. apply Hin'. left. reflexivity.
+        * assert (H1 : slookup t1 (ltags l) = Some (OComp rid)).
+          { destruct emp; [|assumption]. simpl ltags in H. rewrite slookup_sdel_other in H; assumption. }
+          destruct (d_owned _ _ D _ H1) as [[x Hx]|Hx]; [|auto]. left. exists x. apply Hu'; assumption.
   Qed.
 
   Lemma unregister_missing n r l :
     slookup n (reg r) = None -> unregister n r l = (r, l, RErr ENotRegistered).
   Proof. intro H. unfold unregister. rewrite H. reflexivity. Qed.
 
-  Lemma unregister_inv n r l r' l' x : inv r l -> unregister n r l = (r', l', x) -> inv r' l'.
+  Lemma unregister_inv n r l r' l' x :
+    ginv r l -> unregister n r l = (r', l', x) -> ginv r' l' /\ (dinv r l -> dinv r' l').
   Proof.
     intros I H. destruct (slookup n (reg r)) as [[c t]|] eqn:E.
-    - destruct (unregister_spec _ _ _ _ _ I E) as (r1 & l1 & H1 & _ & I1). congruence.
-    - rewrite (unregister_missing _ _ _ E) in H. inversion H; subst. assumption.
+    - destruct (unregister_spec _ _ _ _ _ I E) as (r1 & l1 & H1 & _ & _ & I1 & D1).
+      assert (r1 = r' /\ l1 = l') as [? ?] by (split; congruence). subst. auto.
+    - rewrite (unregister_missing _ _ _ E) in H. inversion H; subst. auto.
   Qed.
 
   (* --- clear --- *)
   Lemma unregister_all_spec ns : forall r l,
-    inv r l -> NoDup ns -> (forall n, In n ns -> In n (skeys (reg r))) ->
-    exists r' l', unregister_all ns r l = (r', l', None) /\ inv r' l' /\
+    ginv r l -> NoDup ns -> (forall n, In n ns -> In n (skeys (reg r))) ->
+    exists r' l', unregister_all ns r l = (r', l', None) /\ prot l' = prot l /\ ginv r' l' /\ (dinv r l -> dinv r' l') /\
                   forall x, slookup x (reg r') = if nmem x ns then None else slookup x (reg r).
   Proof.
     induction ns as [|n rest IH]; intros r l I Hnd Hin.
     - exists r, l. simpl. auto.
     - inversion Hnd as [|? ? Hn Hrest]; subst.
       destruct (in_keys_slookup n (reg r) (Hin n (or_introl eq_refl))) as [[c t] Hl].
-      destruct (unregister_spec _ _ _ _ _ I Hl) as (r1 & l1 & H1 & Hr1 & I1).
-      destruct (IH r1 l1 I1 Hrest) as (r2 & l2 & H2 & I2 & Hl2).
+      destruct (unregister_spec _ _ _ _ _ I Hl) as (r1 & l1 & H1 & Hr1 & Hp1 & I1 & D1).
+      destruct (IH r1 l1 I1 Hrest) as (r2 & l2 & H2 & Hp2 & I2 & D2 & Hl2).
       { intros m Hm. rewrite Hr1. apply skeys_sdel_in. split; [apply Hin; right; assumption|].
         intro; subst m. contradiction. }
-      exists r2, l2. simpl unregister_all. rewrite H1. split; [assumption | split; [assumption|]].
+      exists r2, l2. simpl unregister_all. rewrite H1. split; [assumption|]. split; [congruence|].
+      split; [assumption|]. split; [auto|].
       intro x. rewrite Hl2, Hr1. simpl nmem. destruct (str_eqb_spec x n) as [E|E]; simpl.
       + subst x. apply nmem_false in Hn. rewrite Hn. apply slookup_sdel_same.
       + destruct (nmem x rest); [reflexivity | apply slookup_sdel_other; assumption].
   Qed.
 
-  Lemma clear_spec r l : inv r l -> exists l', clear r l = (rempty, l', RNone) /\ inv rempty l'.
+  Lemma clear_spec r l :
+    ginv r l -> exists l', clear r l = (rempty, l', RNone) /\ prot l' = prot l /\ ginv rempty l' /\ (dinv r l -> dinv rempty l').
   Proof.
     intro I.
-    destruct (unregister_all_spec (skeys (reg r)) r l I (inv_nodup _ _ I) (fun n H => H)) as (r' & l' & H & I' & Hl).
-    exists l'. unfold clear. rewrite H. split; [reflexivity|].
+    destruct (unregister_all_spec (skeys (reg r)) r l I (g_nodup _ _ I) (fun n H => H)) as (r' & l' & H & Hp & I' & D' & Hl).
+    exists l'. unfold clear. rewrite H. split; [reflexivity|]. split; [assumption|].
     assert (Hr : reg r' = []).
     { apply all_none_nil. intro k. rewrite Hl. destruct (nmem k (skeys (reg r))) eqn:E; [reflexivity|].
       apply nmem_false in E. apply slookup_none_keys. assumption. }
     assert (Hno : forall n t, ~ uses r' n t).
     { intros n t [c Hc]. rewrite Hr in Hc. discriminate. }
-    constructor; simpl; try (intros; discriminate).
-    - constructor.
-    - intros t n [c Hc]. discriminate.
-    - apply (inv_prot _ _ I').
-    - intros n t [c Hc]. discriminate.
-    - intros t Ht. destruct (inv_owned _ _ I' _ Ht) as [[n Hn]|Hn]; [destruct (Hno _ _ Hn) | auto].
-    - apply (inv_other _ _ I').
-    - apply (inv_protected _ _ I').
+    split.
+    - constructor; simpl; try (intros; discriminate).
+      + constructor.
+      + intros t n [c Hc]. discriminate.
+      + intros n t [c Hc]. discriminate.
+      + apply (g_other _ _ I').
+    - intro D. specialize (D' D). constructor.
+      + intros n t [c Hc]. discriminate.
+      + intros t Ht. destruct (d_owned _ _ D' _ Ht) as [[n Hn]|Hn]; [destruct (Hno _ _ Hn) | auto].
   Qed.
 
-  (* --- every call preserves the invariant --- *)
-  Lemma step_inv o r l r' l' x : inv r l -> step rid fmt r l o = (r', l', x) -> inv r' l'.
+  (* --- every call preserves the invariants --- *)
+  Lemma step_inv o r l r' l' x :
+    ginv r l -> step rid fmt r l o = (r', l', x) -> ginv r' l' /\ (dinv r l -> protect_ok r o = true -> dinv r' l').
   Proof.
-    intros I. destruct o as [n c|n| |n|]; simpl.
-    - apply register_inv; assumption.
-    - apply unregister_inv; assumption.
-    - destruct (clear_spec _ _ I) as (l1 & H1 & I1). rewrite H1. intro H; inversion H; subst. assumption.
-    - intro H; inversion H; subst. assumption.
-    - intro H; inversion H; subst. assumption.
+    intros I. destruct o as [n c|n| |n| |ps]; simpl.
+    - intro H. destruct (register_inv _ _ _ _ _ _ _ I H). auto.
+    - intro H. destruct (unregister_inv _ _ _ _ _ _ I H). auto.
+    - destruct (clear_spec _ _ I) as (l1 & H1 & _ & I1 & D1). rewrite H1. intro H; inversion H; subst. auto.
+    - intro H; inversion H; subst. auto.
+    - intro H; inversion H; subst. auto.
+    - intro H; inversion H; subst. split.
+      + constructor; simpl; apply I.
+      + intros D Hok. pose proof (proj1 (protect_ok_spec _ _) Hok) as Hd. constructor; simpl.
+        * intros n t Hn. apply nmem_false. intro Hin. exact (Hd t Hin n Hn).
+        * apply (d_owned _ _ D).
   Qed.
 
-  Lemma run_inv ops : forall r l r' l' xs, inv r l -> run rid fmt r l ops = (r', l', xs) -> inv r' l'.
+  Lemma run_inv ops : forall r l r' l' xs,
+    ginv r l -> run rid fmt r l ops = (r', l', xs) ->
+    ginv r' l' /\ (dinv r l -> disciplined rid fmt r l ops = true -> dinv r' l').
   Proof.
     induction ops as [|o ops IH]; intros r l r' l' xs I; simpl.
-    - intro H; inversion H; subst. assumption.
+    - intro H; inversion H; subst. auto.
     - destruct (step rid fmt r l o) as [[r1 l1] x] eqn:E1.
       destruct (run rid fmt r1 l1 ops) as [[r2 l2] ys] eqn:E2.
-      intro H; inversion H; subst. eapply IH; [|eassumption]. eapply step_inv; eassumption.
+      intro H; inversion H; subst.
+      destruct (step_inv _ _ _ _ _ _ I E1) as [I1 D1].
+      destruct (IH _ _ _ _ _ I1 E2) as [I2 D2]. split; [assumption|].
+      intros D Hd. apply andb_true_iff in Hd. destruct Hd as [Hok Hd]. auto.
   Qed.
 End Inv.
 
-(* ---------- refinement: the registry IS a plain dictionary ---------- *)
+(* ---------- refinement: the registry IS a plain dictionary (with the current protected list) ---------- *)
 Section Refine.
   Context (rid : N) (fmt : str -> option str) (l0 : lib).
 
@@ -473,10 +528,10 @@ Section Refine.
   Proof. apply (slookup_smap fst). Qed.
 
   Lemma step_refines o r l r' l' x :
-    inv rid fmt l0 r l -> step rid fmt r l o = (r', l', x) ->
-    dict_step fmt (prot l0) (contents r) o = (contents r', x).
+    ginv rid fmt l0 r l -> step rid fmt r l o = (r', l', x) ->
+    dict_step fmt (prot l, contents r) o = ((prot l', contents r'), x).
   Proof.
-    intros I. destruct o as [n c|n| |n|]; simpl.
+    intros I. destruct o as [n c|n| |n| |ps]; simpl.
     - unfold register. rewrite contents_lookup.
       assert (G : match fmt n with
                   | None => (r, l, RErr EValueError)
@@ -488,70 +543,78 @@ Section Refine.
                          {| ltags := sset t (OComp rid) (ltags l); prot := prot l |}, RNone)
                   end = (r', l', x) ->
                   match fmt n with
-                  | None => (contents r, RErr EValueError)
-                  | Some t => if nmem t (prot l0) then (contents r, RErr ETagProtected) else (sset n c (contents r), RNone)
-                  end = (contents r', x)).
-      { rewrite <- (inv_prot _ _ _ _ _ I). destruct (fmt n) as [t|]; [|intro H; inversion H; subst; reflexivity].
+                  | None => ((prot l, contents r), RErr EValueError)
+                  | Some t => if nmem t (prot l) then ((prot l, contents r), RErr ETagProtected)
+                              else ((prot l, sset n c (contents r)), RNone)
+                  end = ((prot l', contents r'), x)).
+      { destruct (fmt n) as [t|]; [|intro H; inversion H; subst; reflexivity].
         destruct (nmem t (prot l)); intro H; inversion H; subst; [reflexivity|].
         rewrite !contents_smap. simpl reg. rewrite (smap_sset fst). reflexivity. }
       destruct (slookup n (reg r)) as [[c' t']|]; cbn [option_map fst]; [|exact G].
       destruct (same_class c' c); [exact G|]. intro H; inversion H; subst. reflexivity.
     - rewrite contents_lookup. destruct (slookup n (reg r)) as [[c t]|] eqn:E; simpl option_map.
-      + destruct (unregister_spec _ _ _ _ _ _ _ _ I E) as (r1 & l1 & H1 & Hr1 & _).
-        rewrite H1. intro H; inversion H; subst. rewrite !contents_smap, Hr1, (smap_sdel fst). reflexivity.
+      + destruct (unregister_spec _ _ _ _ _ _ _ _ I E) as (r1 & l1 & H1 & Hr1 & Hp1 & _).
+        rewrite H1. intro H; inversion H; subst. rewrite Hp1, !contents_smap, Hr1, (smap_sdel fst). reflexivity.
       + rewrite (unregister_missing _ _ _ E). intro H; inversion H; subst. reflexivity.
-    - destruct (clear_spec _ _ _ _ _ I) as (l1 & H1 & _). rewrite H1. intro H; inversion H; subst. reflexivity.
+    - destruct (clear_spec _ _ _ _ _ I) as (l1 & H1 & Hp1 & _). rewrite H1. intro H; inversion H; subst.
+      rewrite Hp1. reflexivity.
     - intro H; inversion H; subst. unfold get. rewrite contents_lookup.
       destruct (slookup n (reg r')) as [[c t]|]; reflexivity.
+    - intro H; inversion H; subst. reflexivity.
     - intro H; inversion H; subst. reflexivity.
   Qed.
 
   Lemma run_refines ops : forall r l r' l' xs,
-    inv rid fmt l0 r l -> run rid fmt r l ops = (r', l', xs) ->
-    dict_run fmt (prot l0) (contents r) ops = (contents r', xs).
+    ginv rid fmt l0 r l -> run rid fmt r l ops = (r', l', xs) ->
+    dict_run fmt (prot l, contents r) ops = ((prot l', contents r'), xs).
   Proof.
-    induction ops as [|o ops IH]; intros r l r' l' xs I; simpl.
+    induction ops as [|o ops IH]; intros r l r' l' xs I; cbn [run dict_run].
     - intro H; inversion H; subst. reflexivity.
     - destruct (step rid fmt r l o) as [[r1 l1] x] eqn:E1.
       destruct (run rid fmt r1 l1 ops) as [[r2 l2] ys] eqn:E2.
       intro H; inversion H; subst.
       rewrite (step_refines _ _ _ _ _ _ I E1).
-      rewrite (IH _ _ _ _ _ (step_inv _ _ _ _ _ _ _ _ _ I E1) E2). reflexivity.
+      rewrite (IH _ _ _ _ _ (proj1 (step_inv _ _ _ _ _ _ _ _ _ I E1)) E2). reflexivity.
   Qed.
 End Refine.
 
 (* ---------- statements used by Props/C15.v ---------- *)
 Lemma refines_dict_lemma : forall rid fmt l0 ops,
-  let '(r, _, outs) := run rid fmt rempty l0 ops in
-  dict_run fmt (prot l0) [] ops = (contents r, outs).
+  let '(r, l, outs) := run rid fmt rempty l0 ops in
+  dict_run fmt (prot l0, []) ops = ((prot l, contents r), outs).
 Proof.
   intros rid fmt l0 ops. destruct (run rid fmt rempty l0 ops) as [[r l] xs] eqn:E.
-  exact (run_refines rid fmt l0 ops _ _ _ _ _ (inv_init rid fmt l0) E).
+  exact (run_refines rid fmt l0 ops _ _ _ _ _ (ginv_init rid fmt l0) E).
 Qed.
 
-Lemma reachable_inv rid fmt l0 ops r l xs :
-  run rid fmt rempty l0 ops = (r, l, xs) -> inv rid fmt l0 r l.
-Proof. intro E. exact (run_inv rid fmt l0 ops _ _ _ _ _ (inv_init rid fmt l0) E). Qed.
+Lemma reachable_ginv rid fmt l0 ops r l xs :
+  run rid fmt rempty l0 ops = (r, l, xs) -> ginv rid fmt l0 r l.
+Proof. intro E. exact (proj1 (run_inv rid fmt l0 ops _ _ _ _ _ (ginv_init rid fmt l0) E)). Qed.
+
+Lemma reachable_dinv rid fmt l0 ops r l xs :
+  run rid fmt rempty l0 ops = (r, l, xs) -> disciplined rid fmt rempty l0 ops = true -> dinv rid l0 r l.
+Proof. intros E Hd. exact (proj2 (run_inv rid fmt l0 ops _ _ _ _ _ (ginv_init rid fmt l0) E) (dinv_init rid l0) Hd). Qed.
 
 Lemma no_internal_error_lemma : forall rid fmt l0 ops,
   let '(_, _, outs) := run rid fmt rempty l0 ops in
   ~ In (RErr EKeyError) outs /\ ~ In (RErr EOther) outs /\ ~ In (RErr ENoSuchRegistry) outs.
 Proof.
   intros rid fmt l0 ops. pose proof (refines_dict_lemma rid fmt l0 ops) as H.
-  destruct (run rid fmt rempty l0 ops) as [[r l] xs]. clear l.
-  assert (G : forall ops d d' ys, dict_run fmt (prot l0) d ops = (d', ys) ->
+  destruct (run rid fmt rempty l0 ops) as [[r l] xs].
+  assert (G : forall ops s s' ys, dict_run fmt s ops = (s', ys) ->
               forall e, In (RErr e) ys -> e = EAlreadyRegistered \/ e = ENotRegistered \/ e = EValueError \/ e = ETagProtected).
-  { clear. induction ops as [|o ops IH]; intros d d' ys; simpl.
+  { clear. induction ops as [|o ops IH]; intros s s' ys; simpl.
     - intro H; inversion H; subst. intros e [].
-    - destruct (dict_step fmt (prot l0) d o) as [d1 x] eqn:E1.
-      destruct (dict_run fmt (prot l0) d1 ops) as [d2 xs] eqn:E2.
+    - destruct (dict_step fmt s o) as [s1 x] eqn:E1.
+      destruct (dict_run fmt s1 ops) as [s2 xs] eqn:E2.
       intro H; inversion H; subst. intros e [He|He]; [|eapply IH; eassumption].
-      subst x. destruct o as [n c|n| |n|]; simpl in E1.
+      subst x. destruct s as [ps d]. destruct o as [n c|n| |n| |ps']; simpl in E1.
       + destruct (slookup n d) as [c'|]; [destruct (same_class c' c)|];
-          try (destruct (fmt n) as [t|]; [destruct (nmem t (prot l0))|]); inversion E1; auto.
+          try (destruct (fmt n) as [t|]; [destruct (nmem t ps)|]); inversion E1; auto.
       + destruct (slookup n d); inversion E1; auto.
       + inversion E1.
       + destruct (slookup n d); inversion E1; auto.
+      + inversion E1.
       + inversion E1. }
   repeat split; intro Hin; destruct (G _ _ _ _ H _ Hin) as [X|[X|[X|X]]]; discriminate.
 Qed.
@@ -560,37 +623,162 @@ Lemma tags_consistent_lemma : forall rid fmt l0 ops,
   let '(r, _, _) := run rid fmt rempty l0 ops in tags_consistent r.
 Proof.
   intros rid fmt l0 ops. destruct (run rid fmt rempty l0 ops) as [[r l] xs] eqn:E.
-  exact (inv_tags _ _ _ _ _ (reachable_inv _ _ _ _ _ _ _ E)).
+  exact (g_tags _ _ _ _ _ (reachable_ginv _ _ _ _ _ _ _ E)).
+Qed.
+
+(* every history: a used tag is in the library, as this registry's tag function *)
+Lemma used_tag_in_library_lemma : forall rid fmt l0 ops n t,
+  let '(r, l, _) := run rid fmt rempty l0 ops in
+  uses r n t -> slookup t (ltags l) = Some (OComp rid).
+Proof.
+  intros rid fmt l0 ops n t. destruct (run rid fmt rempty l0 ops) as [[r l] xs] eqn:E.
+  exact (g_used _ _ _ _ _ (reachable_ginv _ _ _ _ _ _ _ E) n t).
 Qed.
 
 Lemma library_tag_iff_used_lemma : forall rid fmt l0 ops t,
-  lib_foreign rid l0 ->
+  lib_foreign rid l0 -> disciplined rid fmt rempty l0 ops = true ->
   let '(r, l, _) := run rid fmt rempty l0 ops in
   ((exists n, uses r n t) <-> slookup t (ltags l) = Some (OComp rid)) /\
-  (slookup t (ltags l0) = None -> (smem t (ltags l) = true <-> exists n, uses r n t)).
+  (slookup t (ltags l0) = None -> (smem t (ltags l) = true <-> exists n, uses r n t)) /\
+  (forall n, uses r n t -> nmem t (prot l) = false).
 Proof.
-  intros rid fmt l0 ops t Hf. destruct (run rid fmt rempty l0 ops) as [[r l] xs] eqn:E.
-  pose proof (reachable_inv _ _ _ _ _ _ _ E) as I.
+  intros rid fmt l0 ops t Hf Hd. destruct (run rid fmt rempty l0 ops) as [[r l] xs] eqn:E.
+  pose proof (reachable_ginv _ _ _ _ _ _ _ E) as I. pose proof (reachable_dinv _ _ _ _ _ _ _ E Hd) as D.
   assert (A : (exists n, uses r n t) <-> slookup t (ltags l) = Some (OComp rid)).
   { split.
-    - intros [n Hn]. apply (inv_used _ _ _ _ _ I _ _ Hn).
-    - intro H. destruct (inv_owned _ _ _ _ _ I _ H) as [H1|H1]; [assumption | destruct (Hf _ H1)]. }
-  split; [exact A|]. intro H0. unfold smem. split.
+    - intros [n Hn]. apply (g_used _ _ _ _ _ I _ _ Hn).
+    - intro H. destruct (d_owned _ _ _ _ D _ H) as [H1|H1]; [assumption | destruct (Hf _ H1)]. }
+  split; [exact A|]. split; [|intros n Hn; exact (d_unprot _ _ _ _ D _ _ Hn)]. intro H0. unfold smem. split.
   - destruct (slookup t (ltags l)) as [o|] eqn:Eo; [|discriminate]. intros _.
     destruct (owner_eq_dec o (OComp rid)) as [Ho|Ho]; [subst; apply A; reflexivity|].
-    pose proof (inv_other _ _ _ _ _ I _ _ Eo Ho). congruence.
+    pose proof (g_other _ _ _ _ _ I _ _ Eo Ho). congruence.
   - intro H. apply A in H. rewrite H. reflexivity.
 Qed.
 
-Lemma protected_never_touched_lemma : forall rid fmt l0 ops t,
-  In t (prot l0) ->
-  let '(r, l, _) := run rid fmt rempty l0 ops in
-  prot l = prot l0 /\ slookup t (ltags l) = slookup t (ltags l0) /\ forall n, ~ uses r n t.
+(* ---------- protected tags: a call never touches the library entry of a tag that is protected NOW ---------- *)
+Section Protected.
+  Context (rid : N) (fmt : str -> option str) (t : str).
+
+  Lemma unregister_keeps n r l r' l' x :
+    unregister n r l = (r', l', x) -> nmem t (prot l) = true ->
+    prot l' = prot l /\ slookup t (ltags l') = slookup t (ltags l) /\ ((forall m, ~ uses r m t) -> forall m, ~ uses r' m t).
+  Proof.
+    unfold unregister. intros H Hp.
+    destruct (slookup n (reg r)) as [[c t']|]; [|inversion H; subst; auto].
+    destruct (slookup t' (tgs r)) as [ns|]; [|inversion H; subst; auto].
+    destruct (negb (nmem n ns)); [inversion H; subst; auto|].
+    inversion H; subst; clear H. split; [|split].
+    - destruct (_ && _ && _); reflexivity.
+    - destruct (negb (nmem t' (prot l))) eqn:E; simpl; [|reflexivity].
+      destruct (_ && _); [|reflexivity]. simpl ltags. apply slookup_sdel_other.
+      intro; subst t'. rewrite Hp in E. discriminate.
+    - intros Hno m [c1 Hm]. simpl in Hm. apply slookup_sdel_some in Hm. destruct Hm as [_ Hm]. apply (Hno m). exists c1. assumption.
+  Qed.
+
+  Lemma unregister_all_keeps ns : forall r l r' l' e,
+    unregister_all ns r l = (r', l', e) -> nmem t (prot l) = true ->
+    prot l' = prot l /\ slookup t (ltags l') = slookup t (ltags l) /\ ((forall m, ~ uses r m t) -> forall m, ~ uses r' m t).
+  Proof.
+    induction ns as [|n ns IH]; intros r l r' l' e; simpl.
+    - intros H _. inversion H; subst. auto.
+    - destruct (unregister n r l) as [[r1 l1] x] eqn:E1. intros H Hp.
+      destruct (unregister_keeps _ _ _ _ _ _ E1 Hp) as (P1 & L1 & U1).
+      destruct x; try (inversion H; subst; auto; fail);
+        (assert (Hp1 : nmem t (prot l1) = true) by (rewrite P1; assumption);
+         destruct (IH _ _ _ _ _ H Hp1) as (P2 & L2 & U2); split; [congruence | split; [congruence | auto]]).
+  Qed.
+
+  Lemma step_keeps o r l r' l' x :
+    step rid fmt r l o = (r', l', x) -> nmem t (prot l) = true -> (forall ps, o = OProtect ps -> In t ps) ->
+    nmem t (prot l') = true /\ slookup t (ltags l') = slookup t (ltags l) /\ ((forall m, ~ uses r m t) -> forall m, ~ uses r' m t).
+  Proof.
+    intros H Hp Hk. destruct o as [n c|n| |n| |ps]; simpl in H.
+    - unfold register in H.
+      assert (G : match fmt n with
+                  | None => (r, l, RErr EValueError)
+                  | Some t' =>
+                      if nmem t' (prot l) then (r, l, RErr ETagProtected)
+                      else
+                        ({| reg := sset n (c, t') (reg r);
+                            tgs := sset t' (nadd n match slookup t' (tgs r) with Some ns => ns | None => [] end) (tgs r) |},
+                         {| ltags := sset t' (OComp rid) (ltags l); prot := prot l |}, RNone)
+                  end = (r', l', x) ->
+                  nmem t (prot l') = true /\ slookup t (ltags l') = slookup t (ltags l) /\
+                  ((forall m, ~ uses r m t) -> forall m, ~ uses r' m t)).
+      { destruct (fmt n) as [t'|]; [|intro G; inversion G; subst; auto].
+        destruct (nmem t' (prot l)) eqn:Ep; intro G; inversion G; subst; [auto|].
+        assert (Hne : t <> t') by (intro; subst; congruence).
+        split; [assumption|]. split; [simpl; apply slookup_sset_other; assumption|].
+        intros Hno m [c1 Hm]. simpl in Hm. destruct (str_eq_dec m n) as [E|E].
+        - subst m. rewrite slookup_sset_same in Hm. inversion Hm; subst. contradiction.
+        - rewrite slookup_sset_other in Hm by assumption. apply (Hno m). exists c1. assumption. }
+      destruct (slookup n (reg r)) as [[c' t'']|]; [|exact (G H)].
+      destruct (same_class c' c); [exact (G H)|]. inversion H; subst. auto.
+    - destruct (unregister_keeps _ _ _ _ _ _ H Hp) as (P & L & U). split; [rewrite P; assumption | auto].
+    - unfold clear in H. destruct (unregister_all (skeys (reg r)) r l) as [[r1 l1] e] eqn:E.
+      destruct (unregister_all_keeps _ _ _ _ _ _ E Hp) as (P & L & U).
+      destruct e; inversion H; subst; (split; [rewrite P; assumption | split; [assumption|]]); [exact U|].
+      intros _ m [c1 Hm]. discriminate.
+    - inversion H; subst. auto.
+    - inversion H; subst. auto.
+    - inversion H; subst. simpl. split; [apply nmem_In, Hk; reflexivity | auto].
+  Qed.
+
+  Lemma run_keeps ops : forall r l r' l' xs,
+    run rid fmt r l ops = (r', l', xs) -> nmem t (prot l) = true -> (forall ps, In (OProtect ps) ops -> In t ps) ->
+    nmem t (prot l') = true /\ slookup t (ltags l') = slookup t (ltags l) /\ ((forall m, ~ uses r m t) -> forall m, ~ uses r' m t).
+  Proof.
+    induction ops as [|o ops IH]; intros r l r' l' xs; simpl.
+    - intros H Hp _. inversion H; subst. auto.
+    - destruct (step rid fmt r l o) as [[r1 l1] x] eqn:E1.
+      destruct (run rid fmt r1 l1 ops) as [[r2 l2] ys] eqn:E2.
+      intros H Hp Hk. inversion H; subst.
+      destruct (step_keeps _ _ _ _ _ _ E1 Hp) as (P1 & L1 & U1).
+      { intros ps Eo. apply Hk. left. assumption. }
+      destruct (IH _ _ _ _ _ E2 P1) as (P2 & L2 & U2).
+      { intros ps Hin. apply Hk. right. assumption. }
+      split; [assumption | split; [congruence | auto]].
+  Qed.
+End Protected.
+
+(* a tag protected at some point of a history (ops1) is not touched afterwards (ops2) for as long as every
+   mark_protected_tags call keeps it in the list: still protected, same library entry (kept, not overwritten, not
+   removed, not created); and if no component used it at that point, none ever does *)
+Lemma protected_never_touched_lemma : forall rid fmt l0 ops1 ops2 t,
+  let '(r1, l1, _) := run rid fmt rempty l0 ops1 in
+  In t (prot l1) -> (forall ps, In (OProtect ps) ops2 -> In t ps) ->
+  let '(r2, l2, _) := run rid fmt r1 l1 ops2 in
+  In t (prot l2) /\ slookup t (ltags l2) = slookup t (ltags l1) /\
+  ((forall n, ~ uses r1 n t) -> forall n, ~ uses r2 n t).
 Proof.
-  intros rid fmt l0 ops t Ht. destruct (run rid fmt rempty l0 ops) as [[r l] xs] eqn:E.
-  pose proof (reachable_inv _ _ _ _ _ _ _ E) as I. apply nmem_In in Ht.
-  split; [apply (inv_prot _ _ _ _ _ I)|]. split; [apply (inv_protected _ _ _ _ _ I); assumption|].
-  intros n Hn. destruct (inv_used _ _ _ _ _ I _ _ Hn) as [_ H]. congruence.
+  intros rid fmt l0 ops1 ops2 t. destruct (run rid fmt rempty l0 ops1) as [[r1 l1] xs1].
+  intros Ht Hk. destruct (run rid fmt r1 l1 ops2) as [[r2 l2] xs2] eqn:E2.
+  apply nmem_In in Ht. destruct (run_keeps rid fmt t ops2 _ _ _ _ _ E2 Ht Hk) as (P & L & U).
+  split; [apply nmem_In; assumption | auto].
+Qed.
+
+(* the protected list is what the last mark_protected_tags call said (or the initial one) *)
+Lemma protected_list_lemma : forall rid fmt l0 ops,
+  let '(_, l, _) := run rid fmt rempty l0 ops in
+  prot l = fold_left (fun ps o => match o with OProtect ps' => ps' | _ => ps end) ops (prot l0).
+Proof.
+  intros rid fmt l0 ops. pose proof (refines_dict_lemma rid fmt l0 ops) as H.
+  destruct (run rid fmt rempty l0 ops) as [[r l] xs].
+  assert (G : forall ops s s' ys, dict_run fmt s ops = (s', ys) ->
+              fst s' = fold_left (fun ps o => match o with OProtect ps' => ps' | _ => ps end) ops (fst s)).
+  { clear. induction ops as [|o ops IH]; intros s s' ys; simpl.
+    - intro H; inversion H; subst. reflexivity.
+    - destruct (dict_step fmt s o) as [s1 x] eqn:E1. destruct (dict_run fmt s1 ops) as [s2 xs] eqn:E2.
+      intro H; inversion H; subst. rewrite (IH _ _ _ E2). f_equal.
+      destruct s as [ps d]. destruct o as [n c|n| |n| |ps']; simpl in E1.
+      + destruct (slookup n d) as [c'|]; [destruct (same_class c' c)|];
+          try (destruct (fmt n) as [t|]; [destruct (nmem t ps)|]); inversion E1; reflexivity.
+      + destruct (slookup n d); inversion E1; reflexivity.
+      + inversion E1; reflexivity.
+      + inversion E1; reflexivity.
+      + inversion E1; reflexivity.
+      + inversion E1; reflexivity. }
+  exact (G _ _ _ _ H).
 Qed.
 
 (* tags of the library that are not this registry's are never overwritten by another owner's function:
@@ -600,26 +788,67 @@ Lemma foreign_tags_kept_or_removed_lemma : forall rid fmt l0 ops t o,
   slookup t (ltags l) = Some o -> o <> OComp rid -> slookup t (ltags l0) = Some o.
 Proof.
   intros rid fmt l0 ops t o. destruct (run rid fmt rempty l0 ops) as [[r l] xs] eqn:E.
-  exact (inv_other _ _ _ _ _ (reachable_inv _ _ _ _ _ _ _ E) t o).
+  exact (g_other _ _ _ _ _ (reachable_ginv _ _ _ _ _ _ _ E) t o).
+Qed.
+
+(* ---------- "the same class" = the same _class_hash ---------- *)
+(* What register does when the name is held by a class with the SAME hash (the identical object or another
+   class object with the same import path) and its tag is not protected at that moment: it is accepted; names,
+   tags, `_tags`, the library's tag table and the protected list stay as they are; the stored object becomes the one
+   just passed, in place (dict order kept). *)
+Lemma same_hash_reregistration_lemma : forall rid fmt l0 ops n c t c',
+  let '(r, l, _) := run rid fmt rempty l0 ops in
+  slookup n (reg r) = Some (c, t) -> cls_hash c' = cls_hash c -> nmem t (prot l) = false ->
+  step rid fmt r l (ORegister n c') = ({| reg := sset n (c', t) (reg r); tgs := tgs r |}, l, RNone).
+Proof.
+  intros rid fmt l0 ops n c t c'. destruct (run rid fmt rempty l0 ops) as [[r l] xs] eqn:E.
+  pose proof (reachable_ginv _ _ _ _ _ _ _ E) as I. intros H Hh Hp.
+  assert (Hu : uses r n t) by (exists c; assumption).
+  simpl. unfold register. rewrite H. unfold same_class. unfold cls_hash in Hh. rewrite Hh, N.eqb_refl.
+  rewrite (g_fmt _ _ _ _ _ I _ _ _ H), Hp.
+  pose proof (g_used _ _ _ _ _ I _ _ Hu) as Hl.
+  pose proof (g_tags _ _ _ _ _ I t) as Ht.
+  destruct (slookup t (tgs r)) as [ns|] eqn:Ens; [|destruct (Ht n Hu)].
+  destruct Ht as (_ & _ & Hin).
+  rewrite (nadd_same n ns) by (apply Hin; assumption).
+  rewrite (sset_same_id _ _ _ Ens), (sset_same_id _ _ _ Hl).
+  destruct l; reflexivity.
+Qed.
+
+Lemma same_hash_reregistration_api_lemma : forall rid fmt l0 ops n c t c',
+  let '(r, l, _) := run rid fmt rempty l0 ops in
+  slookup n (reg r) = Some (c, t) -> cls_hash c' = cls_hash c -> nmem t (prot l) = false ->
+  let '(r', l', x) := step rid fmt r l (ORegister n c') in
+  x = RNone /\ l' = l /\ tgs r' = tgs r /\ get n r' = RCls c' /\
+  (forall m, m <> n -> get m r' = get m r) /\ skeys (reg r') = skeys (reg r).
+Proof.
+  intros rid fmt l0 ops n c t c'.
+  pose proof (same_hash_reregistration_lemma rid fmt l0 ops n c t c') as S.
+  destruct (run rid fmt rempty l0 ops) as [[r l] xs]. intros H Hh Hp. rewrite (S H Hh Hp).
+  split; [reflexivity|]. split; [reflexivity|]. split; [reflexivity|]. split; [|split].
+  - unfold get. simpl. rewrite slookup_sset_same. reflexivity.
+  - intros m Hm. unfold get. simpl. rewrite slookup_sset_other by assumption. reflexivity.
+  - simpl. clear S Hh. revert H. induction (reg r) as [|[k v] d IH]; simpl; [discriminate|].
+    destruct (str_eqb_spec n k) as [Ek|Ek]; intro H; simpl; [reflexivity|]. rewrite IH by assumption. reflexivity.
 Qed.
 
 Lemma same_class_noop_lemma : forall rid fmt l0 ops n c t,
   let '(r, l, _) := run rid fmt rempty l0 ops in
-  slookup n (reg r) = Some (c, t) -> step rid fmt r l (ORegister n c) = (r, l, RNone).
+  slookup n (reg r) = Some (c, t) -> nmem t (prot l) = false -> step rid fmt r l (ORegister n c) = (r, l, RNone).
 Proof.
-  intros rid fmt l0 ops n c t. destruct (run rid fmt rempty l0 ops) as [[r l] xs] eqn:E.
-  pose proof (reachable_inv _ _ _ _ _ _ _ E) as I. intro H.
-  assert (Hu : uses r n t) by (exists c; assumption).
-  simpl. unfold register. rewrite H. unfold same_class. rewrite N.eqb_refl.
-  rewrite (inv_fmt _ _ _ _ _ I _ _ _ H).
-  destruct (inv_used _ _ _ _ _ I _ _ Hu) as [Hl Hp].
-  rewrite (inv_prot _ _ _ _ _ I), Hp.
-  pose proof (inv_tags _ _ _ _ _ I t) as Ht.
-  destruct (slookup t (tgs r)) as [ns|] eqn:Ens; [|destruct (Ht n Hu)].
-  destruct Ht as (_ & _ & Hin).
-  rewrite (nadd_same n ns) by (apply Hin; assumption).
-  rewrite (sset_same_id _ _ _ H), (sset_same_id _ _ _ Ens), (sset_same_id _ _ _ Hl).
-  rewrite <- (inv_prot _ _ _ _ _ I). destruct r, l; reflexivity.
+  intros rid fmt l0 ops n c t. pose proof (same_hash_reregistration_lemma rid fmt l0 ops n c t c) as S.
+  destruct (run rid fmt rempty l0 ops) as [[r l] xs]. intros H Hp. rewrite (S H eq_refl Hp).
+  rewrite (sset_same_id _ _ _ H). destruct r; reflexivity.
+Qed.
+
+(* in a disciplined history the tag of a registered name is never protected, so the premise above always holds *)
+Lemma disciplined_used_unprotected_lemma : forall rid fmt l0 ops n c t,
+  disciplined rid fmt rempty l0 ops = true ->
+  let '(r, l, _) := run rid fmt rempty l0 ops in
+  slookup n (reg r) = Some (c, t) -> nmem t (prot l) = false.
+Proof.
+  intros rid fmt l0 ops n c t Hd. destruct (run rid fmt rempty l0 ops) as [[r l] xs] eqn:E.
+  intro H. apply (d_unprot _ _ _ _ (reachable_dinv _ _ _ _ _ _ _ E Hd) n t). exists c. assumption.
 Qed.
 
 (* ---------- any number of registries, each on its own library ---------- *)
@@ -703,59 +932,112 @@ Proof.
 Qed.
 
 (* the full statement for a world of registries on private libraries *)
+(* the full statement for a world of registries on private libraries *)
 Lemma world_refines_dicts_lemma : forall ops w0 i rg l0,
   NoDup (map wlib (wregs w0)) ->
   nth_error (wregs w0) i = Some rg -> wst rg = rempty -> nth_error (wlibs w0) (wlib rg) = Some l0 ->
   let '(w, outs) := wrun w0 ops in
-  exists rg', nth_error (wregs w) i = Some rg' /\
-              dict_run (wfmt rg) (prot l0) [] (project i ops) = (contents (wst rg'), project_outs i ops outs).
+  exists rg' l, nth_error (wregs w) i = Some rg' /\ nth_error (wlibs w) (wlib rg) = Some l /\
+                dict_run (wfmt rg) (prot l0, []) (project i ops) = ((prot l, contents (wst rg')), project_outs i ops outs).
 Proof.
   intros ops w0 i rg l0 Hnd Hr He Hl.
   pose proof (private_independent_lemma ops w0 i rg l0 Hnd Hr Hl) as H.
   pose proof (refines_dict_lemma (N.of_nat i) (wfmt rg) l0 (project i ops)) as D.
   destruct (wrun w0 ops) as [w outs]. rewrite He in H.
   destruct (run (N.of_nat i) (wfmt rg) rempty l0 (project i ops)) as [[r l] xs].
-  destruct H as (H1 & H2 & H3). eexists. split; [exact H1|]. simpl. rewrite D, H3. reflexivity.
+  destruct H as (H1 & H2 & H3). eexists _, l. split; [exact H1|]. split; [exact H2|]. simpl. rewrite D, H3. reflexivity.
 Qed.
 
 Lemma world_library_consistent_lemma : forall ops w0 i rg l0 t,
   NoDup (map wlib (wregs w0)) ->
   nth_error (wregs w0) i = Some rg -> wst rg = rempty -> nth_error (wlibs w0) (wlib rg) = Some l0 ->
-  lib_foreign (N.of_nat i) l0 ->
+  lib_foreign (N.of_nat i) l0 -> disciplined (N.of_nat i) (wfmt rg) rempty l0 (project i ops) = true ->
   let '(w, _) := wrun w0 ops in
   exists rg' l, nth_error (wregs w) i = Some rg' /\ nth_error (wlibs w) (wlib rg) = Some l /\
     tags_consistent (wst rg') /\
     ((exists n, uses (wst rg') n t) <-> slookup t (ltags l) = Some (OComp (N.of_nat i))) /\
     (slookup t (ltags l0) = None -> (smem t (ltags l) = true <-> exists n, uses (wst rg') n t)) /\
-    (In t (prot l0) -> slookup t (ltags l) = slookup t (ltags l0) /\ forall n, ~ uses (wst rg') n t).
+    (forall n, uses (wst rg') n t -> nmem t (prot l) = false).
 Proof.
-  intros ops w0 i rg l0 t Hnd Hr He Hl Hf.
+  intros ops w0 i rg l0 t Hnd Hr He Hl Hf Hd.
   pose proof (private_independent_lemma ops w0 i rg l0 Hnd Hr Hl) as H.
   pose proof (tags_consistent_lemma (N.of_nat i) (wfmt rg) l0 (project i ops)) as T.
-  pose proof (library_tag_iff_used_lemma (N.of_nat i) (wfmt rg) l0 (project i ops) t Hf) as U.
-  pose proof (protected_never_touched_lemma (N.of_nat i) (wfmt rg) l0 (project i ops) t) as P.
+  pose proof (library_tag_iff_used_lemma (N.of_nat i) (wfmt rg) l0 (project i ops) t Hf Hd) as U.
   destruct (wrun w0 ops) as [w outs]. rewrite He in H.
   destruct (run (N.of_nat i) (wfmt rg) rempty l0 (project i ops)) as [[r l] xs].
-  destruct H as (H1 & H2 & _). destruct U as [U1 U2].
+  destruct H as (H1 & H2 & _). destruct U as (U1 & U2 & U3).
   eexists _, l. split; [exact H1|]. split; [exact H2|]. simpl.
-  split; [exact T|]. split; [exact U1|]. split; [exact U2|]. intro Ht. apply P in Ht. tauto.
+  split; [exact T|]. split; [exact U1|]. split; [exact U2 | exact U3].
+Qed.
+
+(* a protected tag of the library of registry i is not touched by any later call on ANY registry of the world, for as
+   long as every mark_protected_tags call on that library keeps it in the list *)
+Lemma world_protected_lemma : forall ops1 ops2 w0 i rg l0 t,
+  NoDup (map wlib (wregs w0)) ->
+  nth_error (wregs w0) i = Some rg -> wst rg = rempty -> nth_error (wlibs w0) (wlib rg) = Some l0 ->
+  (forall ps, In (OProtect ps) (project i ops2) -> In t ps) ->
+  let '(w1, _) := wrun w0 ops1 in
+  let '(w2, _) := wrun w0 (ops1 ++ ops2) in
+  forall l1, nth_error (wlibs w1) (wlib rg) = Some l1 -> In t (prot l1) ->
+  exists l2, nth_error (wlibs w2) (wlib rg) = Some l2 /\ In t (prot l2) /\ slookup t (ltags l2) = slookup t (ltags l1).
+Proof.
+  intros ops1 ops2 w0 i rg l0 t Hnd Hr He Hl Hk.
+  pose proof (private_independent_lemma ops1 w0 i rg l0 Hnd Hr Hl) as H1.
+  pose proof (private_independent_lemma (ops1 ++ ops2) w0 i rg l0 Hnd Hr Hl) as H2.
+  assert (Hp : project i (ops1 ++ ops2) = project i ops1 ++ project i ops2).
+  { clear. induction ops1 as [|[j o] ops1 IH]; simpl; [reflexivity|]. destruct (Nat.eqb i j); simpl; rewrite IH; reflexivity. }
+  rewrite Hp in H2. rewrite He in H1, H2.
+  pose proof (protected_never_touched_lemma (N.of_nat i) (wfmt rg) l0 (project i ops1) (project i ops2) t) as P.
+  assert (Hrun : forall a b, run (N.of_nat i) (wfmt rg) rempty l0 (a ++ b) =
+                 let '(ra, la, xa) := run (N.of_nat i) (wfmt rg) rempty l0 a in
+                 let '(rb, lb, xb) := run (N.of_nat i) (wfmt rg) ra la b in (rb, lb, xa ++ xb)).
+  { clear. generalize rempty l0. intros r l a b. revert r l. induction a as [|o a IH]; intros r l; simpl.
+    - destruct (run (N.of_nat i) (wfmt rg) r l b) as [[rb lb] xb]. reflexivity.
+    - destruct (step (N.of_nat i) (wfmt rg) r l o) as [[r1 l1] x]. rewrite IH.
+      destruct (run (N.of_nat i) (wfmt rg) r1 l1 a) as [[ra la] xa].
+      destruct (run (N.of_nat i) (wfmt rg) ra la b) as [[rb lb] xb]. reflexivity. }
+  rewrite Hrun in H2.
+  destruct (wrun w0 ops1) as [w1 o1]. destruct (wrun w0 (ops1 ++ ops2)) as [w2 o2].
+  destruct (run (N.of_nat i) (wfmt rg) rempty l0 (project i ops1)) as [[ra la] xa].
+  destruct (run (N.of_nat i) (wfmt rg) ra la (project i ops2)) as [[rb lb] xb].
+  destruct H1 as (_ & H1 & _). destruct H2 as (_ & H2 & _).
+  intros l1 El1 Ht. assert (l1 = la) by congruence. subst l1.
+  destruct (P Ht Hk) as (P1 & P2 & _). exists lb. auto.
 Qed.
 
 (* what "plain dictionary" means: the error cases of the specification, spelled out *)
 Lemma dictionary_errors_exact_lemma : forall fmt ps d n c,
-  (snd (dict_step fmt ps d (ORegister n c)) = RErr EAlreadyRegistered <->
+  (snd (dict_step fmt (ps, d) (ORegister n c)) = RErr EAlreadyRegistered <->
      exists c', slookup n d = Some c' /\ fst c' <> fst c) /\
-  (snd (dict_step fmt ps d (OUnregister n)) = RErr ENotRegistered <-> slookup n d = None) /\
-  (snd (dict_step fmt ps d (OGet n)) = RErr ENotRegistered <-> slookup n d = None) /\
-  (forall c', slookup n d = Some c' -> snd (dict_step fmt ps d (OGet n)) = RCls c').
+  (snd (dict_step fmt (ps, d) (ORegister n c)) = RErr ETagProtected <->
+     (forall c', slookup n d = Some c' -> fst c' = fst c) /\ exists t, fmt n = Some t /\ In t ps) /\
+  (snd (dict_step fmt (ps, d) (OUnregister n)) = RErr ENotRegistered <-> slookup n d = None) /\
+  (snd (dict_step fmt (ps, d) (OGet n)) = RErr ENotRegistered <-> slookup n d = None) /\
+  (forall c', slookup n d = Some c' -> snd (dict_step fmt (ps, d) (OGet n)) = RCls c').
 Proof.
-  intros fmt ps d n c. simpl. repeat split.
+  intros fmt ps d n c. simpl.
+  assert (Go : snd match fmt n with
+                   | None => ((ps, d), RErr EValueError)
+                   | Some t => if nmem t ps then ((ps, d), RErr ETagProtected) else ((ps, sset n c d), RNone)
+                   end = RErr ETagProtected <-> exists t, fmt n = Some t /\ In t ps).
+  { destruct (fmt n) as [t|]; simpl.
+    - destruct (nmem t ps) eqn:E; simpl.
+      + split; [intros _; exists t; split; [reflexivity | apply nmem_In; assumption] | reflexivity].
+      + split; [discriminate|]. intros (t' & Ht & Hin). inversion Ht; subst. apply nmem_In in Hin. congruence.
+    - split; [discriminate | intros (t & Ht & _); discriminate]. }
+  split; [|split; [|repeat split]].
+  - split.
+    + destruct (slookup n d) as [c'|].
+      * unfold same_class. destruct (N.eqb_spec (fst c') (fst c)) as [E|E].
+        -- destruct (fmt n) as [t|]; [destruct (nmem t ps)|]; simpl; discriminate.
+        -- intros _. eauto.
+      * destruct (fmt n) as [t|]; [destruct (nmem t ps)|]; simpl; discriminate.
+    + intros (c' & H & E). rewrite H. unfold same_class. destruct (N.eqb_spec (fst c') (fst c)); [contradiction | reflexivity].
   - destruct (slookup n d) as [c'|].
     + unfold same_class. destruct (N.eqb_spec (fst c') (fst c)) as [E|E].
-      * destruct (fmt n) as [t|]; [destruct (nmem t ps)|]; simpl; discriminate.
-      * intros _. eauto.
-    + destruct (fmt n) as [t|]; [destruct (nmem t ps)|]; simpl; discriminate.
-  - intros (c' & H & E). rewrite H. unfold same_class. destruct (N.eqb_spec (fst c') (fst c)); [contradiction | reflexivity].
+      * rewrite Go. split; [intro H; split; [intros c2 Hc; inversion Hc; subst; assumption | assumption] | tauto].
+      * simpl. split; [discriminate|]. intros [H _]. destruct E. apply H. reflexivity.
+    + rewrite Go. split; [intro H; split; [intros c2 Hc; discriminate | assumption] | tauto].
   - destruct (slookup n d); simpl; [discriminate | reflexivity].
   - intro H. rewrite H. reflexivity.
   - destruct (slookup n d); simpl; [discriminate | reflexivity].
@@ -769,49 +1051,6 @@ Lemma builtin_lib_foreign rid ts ps :
 Proof.
   intros t. simpl. induction ts as [|a ts IH]; simpl; [discriminate|].
   destruct (str_eqb t a); [discriminate | exact IH].
-Qed.
-
-(* ---------- "the same class" = the same _class_hash ---------- *)
-(* What register does when the name is held by a class with the SAME hash (the identical object or another
-   class object with the same import path): it is accepted; names, tags, `_tags`, the library's tag table and the
-   protected list stay as they are; the stored object becomes the one just passed, in place (dict order kept). *)
-Lemma same_hash_reregistration_lemma : forall rid fmt l0 ops n c t c',
-  let '(r, l, _) := run rid fmt rempty l0 ops in
-  slookup n (reg r) = Some (c, t) -> cls_hash c' = cls_hash c ->
-  step rid fmt r l (ORegister n c') = ({| reg := sset n (c', t) (reg r); tgs := tgs r |}, l, RNone).
-Proof.
-  intros rid fmt l0 ops n c t c'. destruct (run rid fmt rempty l0 ops) as [[r l] xs] eqn:E.
-  pose proof (reachable_inv _ _ _ _ _ _ _ E) as I. intros H Hh.
-  assert (Hu : uses r n t) by (exists c; assumption).
-  simpl. unfold register. rewrite H. unfold same_class. unfold cls_hash in Hh. rewrite Hh, N.eqb_refl.
-  rewrite (inv_fmt _ _ _ _ _ I _ _ _ H).
-  destruct (inv_used _ _ _ _ _ I _ _ Hu) as [Hl Hp].
-  rewrite (inv_prot _ _ _ _ _ I), Hp.
-  pose proof (inv_tags _ _ _ _ _ I t) as Ht.
-  destruct (slookup t (tgs r)) as [ns|] eqn:Ens; [|destruct (Ht n Hu)].
-  destruct Ht as (_ & _ & Hin).
-  rewrite (nadd_same n ns) by (apply Hin; assumption).
-  rewrite (sset_same_id _ _ _ Ens), (sset_same_id _ _ _ Hl).
-  rewrite <- (inv_prot _ _ _ _ _ I). destruct l; reflexivity.
-Qed.
-
-(* seen through the API: afterwards get(n) is the new object, every other name is as before, the set of names
-   is as before *)
-Lemma same_hash_reregistration_api_lemma : forall rid fmt l0 ops n c t c',
-  let '(r, l, _) := run rid fmt rempty l0 ops in
-  slookup n (reg r) = Some (c, t) -> cls_hash c' = cls_hash c ->
-  let '(r', l', x) := step rid fmt r l (ORegister n c') in
-  x = RNone /\ l' = l /\ tgs r' = tgs r /\ get n r' = RCls c' /\
-  (forall m, m <> n -> get m r' = get m r) /\ skeys (reg r') = skeys (reg r).
-Proof.
-  intros rid fmt l0 ops n c t c'.
-  pose proof (same_hash_reregistration_lemma rid fmt l0 ops n c t c') as S.
-  destruct (run rid fmt rempty l0 ops) as [[r l] xs]. intros H Hh. rewrite (S H Hh).
-  split; [reflexivity|]. split; [reflexivity|]. split; [reflexivity|]. split; [|split].
-  - unfold get. simpl. rewrite slookup_sset_same. reflexivity.
-  - intros m Hm. unfold get. simpl. rewrite slookup_sset_other by assumption. reflexivity.
-  - simpl. clear S Hh. revert H. induction (reg r) as [|[k v] d IH]; simpl; [discriminate|].
-    destruct (str_eqb_spec n k) as [Ek|Ek]; intro H; simpl; [reflexivity|]. rewrite IH by assumption. reflexivity.
 Qed.
 
 (* ---------- the tree form of the correspondence check = the per-history check on every path ---------- *)
@@ -895,7 +1134,7 @@ Section ObjectRenaming.
   Lemma step_ren o r l :
     step rid fmt (ren_state r) l (ren_op o) = let '(r', l', x) := step rid fmt r l o in (ren_state r', l', ren_out x).
   Proof.
-    destruct o as [n c|n| |n|]; cbn [step ren_op].
+    destruct o as [n c|n| |n| |ps]; cbn [step ren_op].
     - unfold register. cbn [ren_state reg tgs]. rewrite (slookup_smap ren_entry).
       assert (G : match fmt n with
                   | None => (ren_state r, l, RErr EValueError)
@@ -924,6 +1163,7 @@ Section ObjectRenaming.
     - unfold get. cbn [ren_state reg]. rewrite (slookup_smap ren_entry).
       destruct (slookup n (reg r)) as [[c t]|]; reflexivity.
     - rewrite contents_ren. reflexivity.
+    - reflexivity.
   Qed.
 
   Lemma run_ren ops : forall r l,
